@@ -221,6 +221,13 @@ def main(argv=None):
                 and f["function"] not in vacuous):
             undecided.append((f["function"], "no feasible normal exit under "
                               "the contracts (postconditions unexercised)"))
+    # a branch / call outcome that is infeasible in BOTH directions means the
+    # path condition (contracts assumed so far) is contradictory: whatever was
+    # "proved" on it is void
+    for f in funcs:
+        if f.get("status") == "under contract" and f.get("inconsistent"):
+            undecided.append((f["function"], "contradictory path condition: "
+                              + str(f["inconsistent"][:3])[:300]))
     verified_funcs = [f for f in funcs if f.get("status") == "under contract"]
 
     # ---- concrete stage ----------------------------------------------------
